@@ -1,11 +1,11 @@
+import Ldlm.Generated.Facts
 import Ldlm.Proofs.CoreMain
-import Ldlm.Props.Pins
 /-!
 C11 — Graceful shutdown terminates, fails waiters, and keeps holds in the state file.
 
 `shutdownSeq` interprets the closer sequence of `cmd/server/main.go` AS EXTRACTED from the source on
 every run (`Facts.mainCloserOrder`) over M2: "lockSrv.SetShuttingDown" sets the flag that makes
-`DestroySession` return early (pinned: `Pins.pin_DestroySession`), "netCloser" cancels every blocked
+`DestroySession` return early (pinned: `Pins.C11.pin_DestroySession`), "netCloser" cancels every blocked
 call and ends every session, "lockSrvCloser" stops timers and the manager.
 
 * `shutdown_keeps_file`        — with the extracted order the state file after shutdown is the file before.
